@@ -28,6 +28,15 @@ pub enum Damage {
 	Flip(u16, u16, u8),
 	/// (file, offset selector, length 1..64, seed)
 	Overwrite(u16, u16, u8, u16),
+	/// (file, offset selector, value 0..=8): a small byte value, i.e. possibly a forged action
+	/// tag of the record format (1 begin, 2 index, 3 value, 4 end, 5 drop, 6 ref count, 7 drop
+	/// ref count)
+	SetByte(u16, u16, u8),
+	/// (file, candidate selector, byte within the 11-byte action head, value): overwrite one
+	/// byte of something that looks like an action head (tag 2/3/6, table id of an existing
+	/// column, 8-byte index) — a structure-aware mutation that reaches the per-action validation
+	/// (wrong action kind for the column, table of another column, out-of-range index)
+	Forge(u16, u16, u8, u8),
 	/// (file, length, seed)
 	Append(u16, u16, u16),
 	/// cut the LAST k pending files below the header (0..8 bytes)
@@ -61,6 +70,9 @@ fn damage() -> impl Strategy<Value = Damage> {
 		5 => (any::<u16>(), any::<u16>()).prop_map(|(f, l)| Damage::Truncate(f, l)),
 		6 => (any::<u16>(), any::<u16>(), 1u8..=255).prop_map(|(f, o, m)| Damage::Flip(f, o, m)),
 		3 => (any::<u16>(), any::<u16>(), 1u8..64, any::<u16>()).prop_map(|(f, o, l, s)| Damage::Overwrite(f, o, l, s)),
+		3 => (any::<u16>(), any::<u16>(), 0u8..9).prop_map(|(f, o, v)| Damage::SetByte(f, o, v)),
+		6 => (any::<u16>(), any::<u16>(), prop_oneof![3 => Just(0u8), 2 => 1u8..3, 1 => 3u8..11], prop_oneof![3 => 0u8..9, 1 => any::<u8>()])
+			.prop_map(|(f, o, w, v)| Damage::Forge(f, o, w, v)),
 		3 => (any::<u16>(), 1u16..3000, any::<u16>()).prop_map(|(f, l, s)| Damage::Append(f, l, s)),
 		1 => (1u8..3, 0u8..9).prop_map(|(k, l)| Damage::CutLastBelowHeader(k, l)),
 		1 => (1u8..3).prop_map(Damage::ZeroLast),
@@ -163,6 +175,36 @@ pub fn apply_damage(dir: &Path, d: &Damage, last_enacted: u64, touched: &mut boo
 			// flipping inside the 9-byte header of a non-last file may turn it into "record id 0"
 			// etc.; still damage of the class the property names
 			*touched = true;
+		},
+		Damage::SetByte(f, o, v) => {
+			let p = sel(*f);
+			let len = std::fs::metadata(&p)?.len();
+			let mut off = (len as u128 * *o as u128 >> 16) as u64;
+			if p != dir.join(logs.last().unwrap()) {
+				if len <= 9 {
+					return Ok(())
+				}
+				off = off.max(9).min(len - 1);
+			}
+			if off < len {
+				std::fs::OpenOptions::new().write(true).open(&p)?.write_at(&[*v], off)?;
+				*touched = true;
+			}
+		},
+		Damage::Forge(f, o, w, v) => {
+			let p = sel(*f);
+			let data = std::fs::read(&p)?;
+			let cands: Vec<usize> = (9..data.len().saturating_sub(11))
+				.filter(|&i| matches!(data[i], 2 | 3 | 6) && data[i + 2] < 8 && data[i + 1] < 64 && data[i + 8..i + 11] == [0, 0, 0])
+				.collect();
+			if cands.is_empty() {
+				return Ok(())
+			}
+			let at = cands[pick(*o, cands.len())] + *w as usize;
+			if data[at] != *v {
+				std::fs::OpenOptions::new().write(true).open(&p)?.write_at(&[*v], at as u64)?;
+				*touched = true;
+			}
 		},
 		Damage::Overwrite(f, o, l, s) => {
 			let p = sel(*f);
